@@ -26,6 +26,14 @@ F = {
 }
 
 
+def _dbl(x):
+    return x * 2
+
+
+def _half(x):
+    return x / 2
+
+
 class Graph:
     """independent model of the link graph: list of (name, inputs, output, function)"""
 
@@ -91,7 +99,7 @@ def one_of(env, got, alts, label):
         env.true(ok, label)
 
 
-def body(env, mutation=None, l1_kinds=(0, 1, 2)):
+def body(env, mutation=None, l1_kinds=(0, 1, 2), internal=(0,)):
     from glue.core import DataCollection
     from glue.core.component_link import ComponentLink
     from glue.core.link_helpers import LinkSame
@@ -102,7 +110,12 @@ def body(env, mutation=None, l1_kinds=(0, 1, 2)):
     a2 = env.reals('a2', (n,))
     D0 = mk_data('D0', a0=a0, b0=b0)
     D1 = mk_data('D1', a1=a1)
-    D1.add_component_link(D1.id['a1'] * 2, 's1')           # derived attribute of D1
+    int2 = internal[env.choice('internal', len(internal))]  # 0: s1 = a1 * 2 (one-way); 1: defined with an inverse (two-way, inside D1)
+    if int2:
+        from glue.core.component_id import ComponentID
+        D1.add_component_link(ComponentLink([D1.id['a1']], ComponentID('s1', parent=D1), using=_dbl, inverse=_half))
+    else:
+        D1.add_component_link(D1.id['a1'] * 2, 's1')       # derived attribute of D1
     D2 = mk_data('D2', a2=a2)
     dc = DataCollection([D0, D1, D2])
     ds = {'D0': D0, 'D1': D1, 'D2': D2}
@@ -110,6 +123,8 @@ def body(env, mutation=None, l1_kinds=(0, 1, 2)):
     own_vals = {'D0': {'a0': a0, 'b0': b0}, 'D1': {'a1': a1}, 'D2': {'a2': a2}}
     g = Graph()
     g.add('int:s1', ['a1'], 's1', lambda x: x * 2)          # D1's internal link is part of the web of links
+    if int2:
+        g.add('int:s1:inv', ['s1'], 'a1', lambda x: x / 2)
     real = {}
 
     def mk(name, ins, out, two_way=False):
@@ -125,13 +140,15 @@ def body(env, mutation=None, l1_kinds=(0, 1, 2)):
     k1 = l1_kinds[env.choice('L1', len(l1_kinds))]          # 0 absent, 1 one-way, 2 two-way
     if k1:
         links.append(mk('L1', ['a0'], 'a1', two_way=(k1 == 2)))
-    k2 = env.choice('L2', 4)                                  # absent / a1->a2 one-way / two-way / from the derived s1
+    k2 = env.choice('L2', 5)                                  # absent / a1->a2 one-way / two-way / from the derived s1 / s1<->a2 two-way
     if k2 == 1:
         links.append(mk('L2', ['a1'], 'a2'))
     elif k2 == 2:
         links.append(mk('L2', ['a1'], 'a2', two_way=True))
     elif k2 == 3:
         links.append(mk('L2', ['s1'], 'a2'))
+    elif k2 == 4:
+        links.append(mk('L2', ['s1'], 'a2', two_way=True))
     if env.choice('L3', 2):
         links.append(mk('L3', ['a0'], 'a2'))                  # shortcut competing with the chain L1;L2
     if env.choice('L4', 2):
@@ -204,7 +221,7 @@ def body(env, mutation=None, l1_kinds=(0, 1, 2)):
                          '%s: a registered link still refers to a removed object' % tag)
 
     check('initial')
-    muts = [env.choice('mutation', 9)] if mutation is None else (list(mutation) if isinstance(mutation, (tuple, list)) else [mutation])
+    muts = [env.choice('mutation', 10)] if mutation is None else (list(mutation) if isinstance(mutation, (tuple, list)) else [mutation])
     registered = [n_ for n_ in ('L1', 'L2', 'L3', 'L4', 'L5') if n_ in real]
     done = []
     for step, mut in enumerate(muts):
@@ -269,6 +286,18 @@ def body(env, mutation=None, l1_kinds=(0, 1, 2)):
                 if any((set(l[1]) | {l[2]}) & {'s1'} for l in g.links if l[0].split(':')[0] == nm):
                     registered.remove(nm)
             g.drop_touching(['s1'])
+        elif mut == 9:                # remove the stored attribute a derived attribute (that links may start from) is computed from
+            if d1_gone or 'a1' in removed_keys:
+                env.assume(False)
+            D1.remove_component(cid['a1'])
+            for k in ('a1', 's1'):
+                if k not in removed_keys:
+                    removed_keys.append(k)
+            own_vals['D1'].pop('a1')
+            for nm in list(registered):
+                if any((set(l[1]) | {l[2]}) & {'a1', 's1'} for l in g.links if l[0].split(':')[0] == nm):
+                    registered.remove(nm)
+            g.drop_touching(['a1', 's1'])
         elif mut == 8:                # remove a dataset, then add it back
             dc.remove(D2)
             for nm in list(registered):
@@ -282,19 +311,19 @@ def body(env, mutation=None, l1_kinds=(0, 1, 2)):
 
 def harnesses(tier):
     hs = []
-    for mut in range(9):
+    for mut in range(10):
         for k1 in (0, 1, 2):
             if mut in (5, 6) and k1 == 0:
                 continue          # nothing to replace
-            hs.append(Harness('mutation=%d L1=%d' % (mut, k1), body, params=dict(mutation=mut, l1_kinds=(k1,)), validate=10, weight=4,
+            hs.append(Harness('mutation=%d L1=%d' % (mut, k1), body, params=dict(mutation=mut, l1_kinds=(k1,), internal=(0, 1)), validate=10, weight=4,
                               max_paths=500000, wall_s=1800,
-                              bounds=dict(datasets=3, rows=2, link_kinds=['one-way', 'two-way', 'two-input', 'identity', 'from derived attribute'],
+                              bounds=dict(datasets=3, rows=2, link_kinds=['one-way', 'two-way', 'two-input', 'identity', 'from derived attribute', 'two-way derived attribute inside a dataset'],
                                           graphs='all combinations of L1..L5 (L1 fixed per harness)', mutation=mut)))
     if tier == 'thorough':
         # every ordered pair of (different) mutations, checked after each step
-        for m1 in range(1, 9):
-            for m2 in range(1, 9):
-                if (m1 == m2 and m1 != 1) or (m1, m2) in ((3, 2), (4, 2), (4, 5), (4, 6), (4, 7), (5, 6), (6, 5)):
+        for m1 in range(1, 10):
+            for m2 in range(1, 10):
+                if (m1 == m2 and m1 != 1) or (m1, m2) in ((3, 2), (4, 2), (4, 5), (4, 6), (4, 7), (4, 9), (5, 6), (6, 5), (9, 2), (9, 5), (9, 6), (9, 7)):
                     continue          # second step not applicable after the first (e.g. its endpoints are gone)
                 hs.append(Harness('mutations=%d,%d' % (m1, m2), body, params=dict(mutation=(m1, m2), l1_kinds=(0, 1, 2)), validate=6, weight=6,
                                   max_paths=500000, wall_s=3000,
